@@ -31,6 +31,10 @@ def scenarios(tier):
   for n in (1, 2, 3):
     out.append(dict(name=f'shutdown n{n}', prefetch=1, clients=[dict(name='r1', gen=(n, 0), k=1)], shutdown=True))
     out.append(dict(name=f're-init n{n}', prefetch=1, clients=[dict(name='r1', gen=(n, 0), k=1), dict(name='r2', gen=(2, 0), k=2)]))
+  for n in (1, 2):
+    # two requests wait on the same (slow) generator when it is stopped
+    out.append(dict(name=f'two-waiters shutdown n{n}', prefetch=1, shutdown=True,
+                    clients=[dict(name='r1', gen=(n, 0), k=1), dict(name='r2', gen=None, k=1, wait_install=True)]))
   out.append(dict(name='next without generator', prefetch=1, clients=[dict(name='r1', gen=None, k=1, max_calls=1)]))
   return out
 
